@@ -95,6 +95,10 @@ type hintGroup struct {
 	// lowest tip the chain was rolled back to while no notifier instance was
 	// watching any request of the group (noLow: no such rollback)
 	unwatchedLow uint32
+	// frozen: the persisted hint was seen more than one block above the tip
+	// while the request's historical rescan was unanswered (DisconnectTip
+	// does not lower the hints of such requests)
+	frozen bool
 }
 
 const noLow = ^uint32(0)
@@ -248,6 +252,14 @@ func (s *Sim) Close() {
 // rescan answer are attributed to that (one structural signature).
 func (s *Sim) fail(rs *reqState, code, format string, args ...interface{}) {
 	msg := fmt.Sprintf(format, args...)
+	hintFamily := code == "hint-above-event" || code == "confirmed-not-told" || code == "spend-not-told" || code == "rescan-range-misses"
+	if rs != nil && rs.grp.frozen && hintFamily {
+		k := "conf"
+		if rs.spend {
+			k = "spend"
+		}
+		s.R.FailSig("hint-frozen-pending-rescan", k, "%s [earlier in this run the persisted hint of %s stayed above the tip after DisconnectTip because its historical rescan was still unanswered; consequence class %s]", msg, rs.key, code)
+	}
 	if s.faultHit {
 		switch code {
 		case "hint-above-event", "confirmed-not-told", "spend-not-told", "rescan-range-misses":
@@ -287,6 +299,16 @@ func (s *Sim) call(what string, f func() error) error {
 	synctest.Wait()
 	for tries := 0; !finished; tries++ {
 		s.R.Count("probe_call_blocked")
+		tainted := false
+		for _, rs := range s.reqOrder {
+			if rs.stale || rs.orphan {
+				tainted = true
+			}
+		}
+		if !tainted {
+			s.R.Count("probe_call_blocked_untainted")
+		}
+		s.R.Logf("  .. %s is blocked sending on a client channel", what)
 		// A slow client reads eventually: let the lazy ones drain.
 		if tries > 6 || !s.unblockByLazy() {
 			s.R.Fail("notifier-blocked", "%s blocks forever sending to a client although every promptly reading client has emptied its channels: no further notification can be delivered (tip %d)", what, s.tip())
@@ -295,6 +317,13 @@ func (s *Sim) call(what string, f func() error) error {
 	}
 	if pan != nil {
 		if panicFromLnd(pan.stack) {
+			// a crash of the notifier that follows a tainted rescan answer
+			// belongs to that finding
+			for _, rs := range s.reqOrder {
+				if rs.stale || rs.orphan {
+					s.fail(rs, "PANIC", "panic in code under test during %s: %v\n%s", what, pan.val, pan.stack)
+				}
+			}
 			s.R.Fail("PANIC", "panic in code under test during %s: %v\n%s", what, pan.val, pan.stack)
 		}
 		s.R.Harness("panic in simulator during %s: %v\n%s", what, pan.val, pan.stack)
@@ -577,7 +606,7 @@ func (s *Sim) judge(c *client, b evBatch, lazy bool) {
 	if len(b.conf) > 1 || len(b.neg) > 1 || len(b.spend) > 1 || b.reorg > 1 || b.done > 1 {
 		s.fail(rs, "duplicate-event", "%v read %d Confirmed, %d NegativeConf, %d Spend, %d Reorg, %d Done at once", c, len(b.conf), len(b.neg), len(b.spend), b.reorg, b.done)
 	}
-	if (len(b.conf) > 0 && len(b.neg) > 0) || (len(b.spend) > 0 && b.reorg > 0) {
+	if ((len(b.conf) > 0 && len(b.neg) > 0) || (len(b.spend) > 0 && b.reorg > 0)) && !rs.multi {
 		// Two channels, no order between them: the client cannot tell
 		// "confirmed then reorged" from "reorged then confirmed again".
 		s.fail(rs, "ambiguous-pending", "%v finds both a confirmation/spend and a reorg notice pending: their order, and so whether the request is currently confirmed, cannot be recovered", c)
@@ -872,6 +901,10 @@ func (s *Sim) checkHints() {
 		verb := "confirmed"
 		if rs.spend {
 			verb = "spent"
+		}
+		if !rs.answered() && hint > s.tip()+1 && !rs.grp.frozen {
+			rs.grp.frozen = true
+			s.R.Count("probe_hint_frozen_above_tip")
 		}
 		if len(hs) > 0 {
 			if hint > hs[0].b.height {
